@@ -116,6 +116,14 @@ theorem parseDatetime_true (offU : Int → Int) : parseDatetime offU "true" = no
 theorem parseDatetime_false (offU : Int → Int) : parseDatetime offU "false" = none := by
   simp [parseDatetime, Datetime.isoParse, Datetime.scanDate, Datetime.scanDateTime]
 
+/-- C16's ISO round trip, for the text `value_string`/`datetimeISOFormat` produce (no sub-millisecond part) -/
+theorem iso_roundtrip (offL offU : Int → Int) (t : Datetime.DT) (hv : t.Valid)
+    (hmin : offL (Datetime.toLocalMs t) % 60 = 0) (hlo : -86400 < offL (Datetime.toLocalMs t)) (hhi : offL (Datetime.toLocalMs t) < 86400)
+    (hexists : offU (Datetime.toLocalMs t - offL (Datetime.toLocalMs t) * 1000) = offL (Datetime.toLocalMs t))
+    (hutc : (Datetime.ofLocalMs (Datetime.toLocalMs t - offL (Datetime.toLocalMs t) * 1000)).isSome = true) :
+    Datetime.isoParse offU (Datetime.isoFormat offL t) = some t :=
+  C16.iso_roundtrip_partial offL offU t 0 hv hmin hlo hhi hexists hutc
+
 open NumText in
 /-- `value_parse_number(str(n))` for a Python `int` inside the double range -/
 theorem parseNumber_int (z : Int) (hlo : -overflowBound < (z : Rat)) (hhi : (z : Rat) < overflowBound) :
